@@ -168,8 +168,8 @@ pub(crate) struct IoLoop {
     // loop starts (the socket is edge-triggered, so nothing would wake us up for them).
     frames_after_handshake: Vec<AMQPFrame>,
 
-    // Counts the steps a handshake has made (TLS: every wake-up; AMQP: every change of
-    // state). The connection timeout is pushed back by progress only, see run_io_loop.
+    // Counts the steps a handshake has made (TLS: every time the peer has sent something;
+    // AMQP: every change of state). The connection timeout is pushed back by progress only, see run_io_loop.
     handshake_progress: u64,
 
     // Bound for buffered outgoing writes. If we have more than this much data enqueued,
@@ -295,8 +295,12 @@ impl IoLoop {
         self.run_io_loop(
             &mut stream,
             &mut state,
-            |this, stream, state, _| {
-                this.handshake_progress += 1;
+            |this, stream, state, event| {
+                // (only what the peer sends is a step; being told that the socket can be
+                // written to is not, and it happens while the peer is silent)
+                if event.readiness().is_readable() {
+                    this.handshake_progress += 1;
+                }
                 if state.is_none() {
                     *state = stream.progress_handshake()?;
                 }
